@@ -42,6 +42,7 @@ def run_one(sid, runs=None, tier='quick'):
         env.pop('KNEESIM_PINNED', None)
         env['KNEESIM_SRC'] = os.path.join(scratch, 'src')
         env['KNEESIM_OUT'] = os.path.join(scratch, 'out')
+        env['KNEESIM_FAIL_FAST'] = '1'      # same runs in the same order; the batch just stops at the first finding
         cmd = [PY, os.path.join(VERIF, 'checks', 'run.py'), prop, '--tier', tier, '--no-selftest']
         if runs:
             cmd += ['--runs', str(runs)]
